@@ -178,6 +178,14 @@ def prop(case):
     from kyupy.circuit import Node
     nl, chains = case['nl'], case['chains']
     text = render(case)
+    rejected_first = (case['brk'] >> 13) % 3 == 0
+    if rejected_first:
+        # history: an earlier parse in the same process that is rejected half-way (another layout of the same pattern set, cut off)
+        sib = render(dict(case, brk=case['brk'] ^ 0x155))
+        try:
+            stil.parse(sib[:len(sib) * (2 + (case['brk'] >> 15) % 3) // 5] + '\n')
+        except Exception:          # rejected; how is not the subject
+            pass
     via = (case['brk'] >> 3) % 6            # 0-2: parse(text); 3: load(plain file); 4: load(.gz); 5: load(.gz) - and bit 7: CR LF line ends in the file
     if via >= 3:
         from vk.files import with_files
@@ -316,6 +324,7 @@ def prop(case):
         one_circuit(nl2, 'second circuit with other port/state order: ', (case['brk'] // 3) % 4)
         labels.append('parse_result_used_for_two_circuits')
     if edited[0]: labels.append('circuit_edited_between_assembling_calls')
+    if rejected_first: labels.append('after_a_rejected_parse')
     if inner[0]: labels.append('marker_inside_chain>=3')
     if len(chains) > 1: labels.append('several_chains')
     if any(p['style'] != 'sa' for p in case['pats']): labels.append('loc_patterns')
